@@ -23,35 +23,56 @@ import (
 func checkSubmitBlockRoot(c *core.Ctx, rule string, withGuard bool) {
 	if fn := c.Fn(pkLedger, "LedgerStoreImp.submitBlock"); fn != nil && withGuard {
 		gbr := eng.Obj(c, pkLedger, "LedgerStoreImp.GetBlockRootWithPreBlockHashes")
-		g := eng.NamedGuard{Name: "Height==0 ∨ GetBlockRootWithPreBlockHashes(…)==Header.BlockRoot", G: func(cd ir.Cond) (bool, bool) {
-			b, ok := cd.V.(*ssa.BinOp)
-			if !ok {
-				return false, false
+		isRootField := func(v ssa.Value) bool {
+			if isFieldNamed(v, "BlockRoot") {
+				return true
 			}
-			if b.Op == token.EQL || b.Op == token.NEQ {
-				if isFieldNamed(b.X, "Height") {
-					if k, okk := ir.ConstInt(b.Y); okk && k == 0 {
-						return true, b.Op == token.EQL
+			// an array value held in a named local
+			if ld, ok := v.(*ssa.UnOp); ok {
+				if al, isAl := ld.X.(*ssa.Alloc); isAl {
+					if sv := ir.SingleStore(al); sv != nil {
+						return isFieldNamed(sv, "BlockRoot")
 					}
 				}
-				if (isCallTo(b.X, gbr) && isFieldNamed(b.Y, "BlockRoot")) || (isCallTo(b.Y, gbr) && isFieldNamed(b.X, "BlockRoot")) {
-					return true, b.Op == token.EQL
+			}
+			return false
+		}
+		isComputedRoot := func(v ssa.Value) bool {
+			if isCallTo(v, gbr) {
+				return true
+			}
+			if ld, ok := v.(*ssa.UnOp); ok {
+				if al, isAl := ld.X.(*ssa.Alloc); isAl {
+					if sv := ir.SingleStore(al); sv != nil {
+						return isCallTo(sv, gbr)
+					}
 				}
 			}
-			return false, false
-		}}
+			return false
+		}
+		g := eng.NamedGuard{Name: "Height==0 ∨ GetBlockRootWithPreBlockHashes(…)==Header.BlockRoot", G: ir.Or(
+			relGuard("Height == 0", func(v ssa.Value) bool { return isFieldNamed(v, "Height") }, isConstInt(0), token.EQL).G,
+			relGuard("computed root == Header.BlockRoot", isComputedRoot, isRootField, token.EQL).G)}
 		var sinks []ir.Sink
-		for _, ci := range ir.Calls(fn, nil) {
+		// directly, or inside a private helper submitBlock calls (e.g. the commit sequence)
+		for _, ci := range ir.CallsThrough(fn, func(ci ssa.CallInstruction) bool {
 			o := ir.CalleeObj(ci)
 			if o == nil {
-				continue
+				return false
 			}
 			switch o.Name() {
 			case "NewBatch", "CommitTo", "saveBlockToBlockStore", "saveBlockToStateStore", "saveBlockToEventStore", "setCurrentBlock":
-				sinks = append(sinks, ir.Sink{Instr: ci, Note: o.Name()})
+				return true
 			}
+			return false
+		}, 2) {
+			note := "store operation"
+			if o := ir.CalleeObj(ci); o != nil {
+				note = o.Name()
+			}
+			sinks = append(sinks, ir.Sink{Instr: ci, Note: note})
 		}
-		c.Floor("store operations in submitBlock ("+rule+")", len(sinks), 10)
+		c.Floor("store operations in submitBlock ("+rule+")", len(sinks), 4)
 		eng.Dominates(c, rule, fn, g, sinks, "every batch/save/commit operation", nil)
 		for _, cl := range ir.CallsTo(fn, gbr) {
 			a := cl.Common().Args
